@@ -312,7 +312,7 @@ class Gen:
         cannot be reached."""
         rng = self.rng
         found = None
-        for dec0 in (rng.choice([0.0, 25.0, -40.0, 55.0, -64.0, 64.0, 72.0]), 0.0):
+        for dec0 in (rng.choice([0.0, 25.0, -40.0, 55.0, -64.0, 64.0, 72.0]), 0.0, 25.0, -40.0):
             c0 = math.cos(math.radians(dec0))
             cs = c0 * 360.0 / (target - 2.5)
             if dec0 != 0.0 and abs(dec0) + 0.75 * cs > 80.0:
@@ -320,6 +320,7 @@ class Gen:
             iso = [30.0 * k for k in range(12)]
             other = rng.choice([60.0, 120.0, 180.0, 240.0, 300.0])
             epss = [1e-9, 1e-6, 1e-3, 0.02, 0.2]
+            small = large = None
             for _ in range(80):
                 L = min(30.0, cs / rng.choice([1.2, 2.0, 4.0]))
                 ra1 = list(iso)
@@ -339,8 +340,15 @@ class Gen:
                 if n == target:
                     found = (c, dc, L, ra1, dec1)
                     break
-                # nRa = 3 + floor(cosDecMin * raRange / chunk size): move the chunk size towards the target
-                cs *= (max(n, 3) - 2.5) / (target - 2.5) if n != target and abs(n - target) > 1 else (1.004 if n > target else 0.996)
+                # nRa = 3 + floor(cosDecMin * raRange / chunk size) decreases with the chunk size: bracket and bisect
+                if n > target:
+                    small = cs
+                else:
+                    large = cs
+                if small is not None and large is not None:
+                    cs = 0.5 * (small + large)
+                else:
+                    cs *= (max(n, 3) - 2.5) / (target - 2.5) * (1.01 if n > target else 0.99)
             if found:
                 break
         if not found:
